@@ -72,6 +72,7 @@ func scenarioC16(rc *RunCtx) *Violation {
 	p := GenProject(g, "/p")
 	o := GenOptions(g, p)
 	o.Write = g.chance(20)
+	o.AllowOverwrite = false // a build that replaces its own inputs changes "the same tree" (see DESIGN §13)
 	if o.Inject {
 		p.Extra["src/inject.js"] = "export let injected = 'INJ';\nconsole.log('inject');\n"
 	}
